@@ -48,6 +48,13 @@ PairSeqs ==
   \cup {<<K("if"), Ia, BinOps[i], Ib, K("then"), Ic, K("else"), Id, BinOps[j], Ie>> : i, j \in 1..Len(BinOps)}
   \cup {<<Ia, BinOps[i], K("("), Ib, BinOps[j], Ic, K(")")>> : i, j \in 1..Len(BinOps)}
   \cup {<<Ia, BinOps[i], Ib, BinOps[j], Ic, BinOps[k], Id>> : i, j, k \in {1, 3, 10, 12, 14, 15, 18}}
+  \* an `if` whose branches are identical, or are the two boolean literals (nothing is simplified away)
+  \cup { <<K("if"), Ia, K("then"), Ib, K("else"), Ib>>, <<K("if"), Ia, K("then"), T("INT", "i1"), K("else"), T("INT", "i1")>>,
+         <<K("if"), Ia, K("then"), T("HEX", "0x1"), K("else"), T("BIN", "0b1")>>, <<K("if"), Ia, K("then"), K("true"), K("else"), K("false")>>,
+         <<K("if"), Ia, K("then"), K("false"), K("else"), K("true")>>, <<T("INT", "i2"), K("*"), K("("), K("if"), Ia, K("then"), Ib, K("else"), Ib, K(")")>>,
+         <<Ia, K("=="), Ia>>, <<Ia, K("-"), Ia>>, <<K("-"), K("-"), Ia>>, <<K("!"), K("!"), Ia>>, <<Ia, K("*"), T("INT", "i1")>>, <<Ia, K("*"), T("INT", "i0")>>,
+         <<Ia, K("+"), T("INT", "i0")>>, <<Ia, K("and"), K("true")>>, <<Ia, K("or"), K("false")>>, <<T("FLOAT", "f0"), K("/"), T("FLOAT", "f0")>>,
+         <<T("INT", "i2"), K("+"), T("INT", "i3")>>, <<K("-"), T("INT", "i3")>>, <<K("-"), T("FLOAT", "f1.5")>>, <<K("-"), T("DECIMAL", "d2.50")>>, <<K("!"), K("true")>> }
   \* every built-in function keyword, both spellings: kw ( a )  and  kw ( a ) . k
   \cup UNION { { <<K(kw), K("("), Ia, K(")")>>, <<K(kw), K("("), Ia, K(")"), K("."), T("IDENT", "k")>>, <<K(kw), Ia>>, <<K("-"), K(kw), K("("), Ia, K(")")>> }
                 : kw \in {"int", "float", "dec", "date_time", "datetime", "duration", "is_some", "some", "is_none", "none", "to_upper", "uppercase",
